@@ -328,6 +328,9 @@ def mk_err(rng):
     text = rng.choice([b"ERR unknown command 'foo'", b"WRONGTYPE Operation against a key holding the wrong kind of value",
                        b"ERR", b"x", b"ERR value is not an integer or out of range", b"LOADING Redis is loading",
                        b"ERR \xe9\xff\x80 caf\xc3\xa9", b"ERR with\ttab and \x00 nul", b"MOVEDx 1 2", b"ASKING",
+                       # an error code with nothing behind it, or glued to / separated otherwise from what follows: none of
+                       # these starts with a redirection or class prefix (code + blank)
+                       b"BUSY", b"NOSCRIPT", b"CLUSTERDOWN", b"MOVED", b"ASK", b"BUSY\tx", b"BUSYX y", b"busy x", b"NOSCRIPTS gone", b"MOVED\t1 h:1",
                        line_bytes(rng, rng.choice([1, 5, 60, 300]))])
     if k == "plain":
         for p in (b"MOVED ", b"ASK ", b"CLUSTERDOWN ", b"BUSY ", b"NOSCRIPT "):
